@@ -20,7 +20,8 @@ ASSUMPTIONS = [
 SHARDS = {"quick": 6, "thorough": 16}
 BUDGET_S = {"quick": 120, "thorough": 600}
 FLOORS = {"c01.queries": 1500, "c01.nontrivial": 500, "c01.path_checks": 10000, "c01.multiseg_with_deletions": 40,
-          "c01.stutter_phrase_queries": 300, "c01.boundary_range_queries": 1500}
+          "c01.stutter_phrase_queries": 300, "c01.boundary_range_queries": 1500,
+          "c01.typed_range_queries": 400, "c01.typed_nontrivial": 100}
 
 PATHS = ["docs_for_query", "query.docs", "search", "unscored", "sorted", "terms", "limit", "page"]
 
@@ -41,6 +42,67 @@ def gen_weighting(rng):
     if r < 0.94:
         return "Reverse(BM25F)", scoring.ReverseWeighting(scoring.BM25F())
     return "Function(0)", scoring.FunctionWeighting(lambda searcher, fieldname, text, matcher: 0.0)
+
+
+def add_typed_fields(trng, h):
+    """Typed sub-population: the model schema plus a float field, a multi-valued 16-bit field, an unsigned 8-bit field and a
+    Decimal field (tier steps drawn per case); values are written into the history's documents. Returns (schema, occurring values)."""
+    from decimal import Decimal
+    from whoosh import fields
+    from vf import model
+    schema = model.make_schema()
+    schema.add("f", fields.NUMERIC(float, stored=True, shift_step=trng.choice([0, 4, 4, 8, 6])))
+    schema.add("m", fields.NUMERIC(int, bits=16, stored=True, shift_step=trng.choice([0, 2, 4, 4, 8])))
+    schema.add("p", fields.NUMERIC(int, bits=8, signed=False, stored=True, shift_step=trng.choice([0, 1, 4, 4, 8])))
+    schema.add("c", fields.NUMERIC(Decimal, decimal_places=2, stored=True, shift_step=trng.choice([0, 4, 8])))
+    fv = [-1e10, -2.5, -1.0, -0.5, -0.001, 0.0, 0.001, 0.5, 1.0, 1.5, 2.5, 1e10, 3.0e-300, -3.0e-300]
+    mv = [-32768, -300, -257, -256, -255, -17, -16, -1, 0, 1, 15, 16, 17, 255, 256, 257, 300, 4095, 4096, 32767]
+    pv = [0, 1, 2, 15, 16, 17, 127, 128, 129, 254, 255]
+    cv = [Decimal(x) for x in ("-10.25", "-0.05", "-0.01", "0", "0.01", "0.05", "0.5", "1.25", "99.99")]
+    used = {"f": set(), "m": set(), "p": set(), "c": set()}
+    for c_ in h["commits"]:
+        for d in c_:
+            if trng.random() < 0.8:
+                d["f"] = trng.choice(fv); used["f"].add(d["f"])
+            if trng.random() < 0.8:
+                d["m"] = [trng.choice(mv) for _ in range(trng.choice([1, 1, 2, 3]))]; used["m"].update(d["m"])
+            if trng.random() < 0.8:
+                d["p"] = trng.choice(pv); used["p"].add(d["p"])
+            if trng.random() < 0.7:
+                d["c"] = trng.choice(cv); used["c"].add(d["c"])
+    return schema, dict(f=(fv, sorted(used["f"])), m=(mv, sorted(used["m"])), p=(pv, sorted(used["p"])), c=(cv, sorted(used["c"])))
+
+
+def typed_queries(trng, tvals):
+    """Numeric ranges over the typed fields: bounds that occur / lie between occurring values / are absent (None), all
+    inclusive-exclusive combinations, alone and under And / Or / AndNot / Not with ordinary model leaves."""
+    from whoosh import query
+    from vf import model
+    out = []
+    for _ in range(14):
+        f = trng.choice(["f", "f", "m", "m", "p", "c"])
+        pool, used = tvals[f]
+        cand = (used if used and trng.random() < 0.7 else pool)
+        a, b = sorted([trng.choice(cand), trng.choice(cand)])
+        if f == "f" and trng.random() < 0.3:
+            a, b = a - 0.25, b + 0.125
+        if f in ("m",) and trng.random() < 0.3:
+            a, b = max(-32768, a - 1), min(32767, b + 1)
+        q = query.NumericRange(f, trng.choice([a, a, None]), trng.choice([b, b, None]), trng.random() < .4, trng.random() < .4)
+        r = trng.random()
+        if r < 0.15:
+            q = query.And([q, model.gen_leaf(trng, fuzzy=False)])
+        elif r < 0.3:
+            q = query.Or([q, model.gen_leaf(trng, fuzzy=False)])
+        elif r < 0.4:
+            q = query.AndNot(model.gen_leaf(trng, fuzzy=False), q)
+        elif r < 0.5:
+            q = query.And([model.gen_leaf(trng, fuzzy=False), query.Not(q)])
+        elif r < 0.55:
+            g = trng.choice(["f", "m", "p", "c"])
+            q = query.Or([q, query.Every(g)]) if trng.random() < 0.5 else query.AndNot(query.Every(g), q)
+        out.append(q)
+    return out
 
 
 def check_query(ctx, rng, built, s, q, wb, wname, exp=None):
@@ -164,13 +226,18 @@ def run(ctx):
                         toks.extend([w_] * rng.choice([1, 1, 2, 2, 3]))
                     d["t"] = " ".join(toks[:14])
             ctx.count("c01.stutter_cases")
+        typed = (idx % 5 == 1) and not (big or staged or grouped or stutter)
+        schema = None
+        if typed:
+            schema, tvals = add_typed_fields(ctx.rng(idx, "typed"), h)
+            ctx.count("c01.typed_cases")
         wname, wobj = gen_weighting(rng)
         if staged:
             from whoosh import scoring
             wname, wobj = rng.choice([("BM25F", scoring.BM25F()), ("TF_IDF", scoring.TF_IDF()), ("Frequency", scoring.Frequency())])
         wb = {"history": {"commits": [len(c) for c in h["commits"]], "deletes": h["deletes"][:12],
                           "blocklimit": h["blocklimit"], "storage": h["storage"]}, "case_idx": idx, "weighting": wname}
-        ok, built = ctx.guard("c01.build", wb, model.build, h)
+        ok, built = ctx.guard("c01.build", wb, model.build, h, schema)
         if not ok:
             continue
         if len(h["commits"]) > 1 and h["deletes"]:
@@ -240,6 +307,13 @@ def run(ctx):
                     ctx.case((model.qshape(q), sig, wname), nontrivial,
                              sample={"query": repr(q), "layout": wb["history"], "matched": len(exp), "live": len(built.live)}
                              if ctx.evaluations % 300 == 0 else None)
+                if typed:
+                    trng = ctx.rng(idx, "typedq")
+                    for q in typed_queries(trng, tvals):
+                        ctx.count("c01.typed_range_queries")
+                        exp = check_query(ctx, trng, built, s, q, wb, wname)
+                        if exp is not None and 0 < len(exp) < len(built.live):
+                            ctx.count("c01.typed_nontrivial")
                 # boundary sweep: ranges whose bounds are values that really occur, in all four inclusive / exclusive
                 # combinations (term, numeric and date ranges decide membership exactly at the bounds)
                 if not big:
